@@ -257,6 +257,23 @@ def extract(repo="/repo"):
         f, "readlock", lambda m: isinstance(m, ast.Call) and isinstance(m.func, ast.Attribute)
         and m.func.attr == "recv_data")
 
+    # the default thread-safe configuration: every way of building a WebSocket gets real locks unless told otherwise
+    f = _find(ws.body, ast.FunctionDef, "__init__")
+    names = [a.arg for a in f.args.args]
+    dfl = dict(zip(names[len(names) - len(f.args.defaults):], f.args.defaults))
+    if "enable_multithread" not in dfl:
+        raise ExtractError("WebSocket.__init__: enable_multithread has no default")
+    T["multithreadDefaultInit"] = bool(ConstEval(env).ev(dfl["enable_multithread"]))
+    f = _find(core.body, ast.FunctionDef, "create_connection")
+    fac = None
+    for n in ast.walk(f):
+        if isinstance(n, ast.Call) and isinstance(n.func, ast.Attribute) and n.func.attr == "pop" \
+           and n.args and isinstance(n.args[0], ast.Constant) and n.args[0].value == "enable_multithread":
+            fac = bool(ConstEval(env).ev(n.args[1]))
+    if fac is None:
+        raise ExtractError("create_connection: options.pop('enable_multithread', D) not found")
+    T["multithreadDefaultFactory"] = fac
+
     # ------------------------------------------------------------------ _handshake.py
     hs = _parse(repo, "_handshake.py")
     ce = ConstEval()
